@@ -31,6 +31,6 @@ func PutString(buf []byte, s string) (n int, err error) {
 }
 
 func GetString(buf []byte) (s string, n int, err error) {
-	bz, n, err := GetString(buf)
+	bz, n, err := GetByteSlice(buf)
 	return string(bz), n, err
 }
